@@ -54,3 +54,16 @@ func replayFile(file string) int {
 type replayer func(ws *Workspace, f *Finding) (*ReplayOutcome, error)
 
 var replayers = map[string]replayer{}
+
+// replayInPkg runs one recorded case through the native build of a harness package.
+func replayInPkg(dir, pkg string, entries []string, f *Finding) (*ReplayOutcome, error) {
+	r := &NativeRunner{Dir: dir, PkgPath: pkg, Entries: entries}
+	outs, err := r.Run([]ReplayCase{{Entry: f.Entry, Args: f.Args, Vars: f.Vars}}, 60*1e9)
+	if err != nil {
+		return nil, err
+	}
+	if len(outs) == 0 {
+		return nil, fmt.Errorf("no outcome")
+	}
+	return &outs[0], nil
+}
